@@ -868,3 +868,230 @@ def c16(ctx):
                        c16_soils=len([k for k in cover if k.startswith("soil:")]),
                        c16_switch_values={k: v for k, v in cover.items() if "=" in k},
                        c16_samples=[dict(crop=s["crop"], soil=s["soil"], irr=(s.get("irr") or {}).get("method")) for s in scs[:2]])
+
+
+def c16_single(ctx):
+    """replay helper: the C16 verdict for the scenarios given by valid_scens"""
+    scs = valid_scens(0, 1)
+    viols = []
+    for sc in scs:
+        r = c16_cell(sc)
+        if r is not None and r.get("ok") != "rejected":
+            key = r.pop("key"); what = r.pop("what")
+            viols.append(V("C16", key, sc, what, **r))
+    return viols, {}
+
+
+# ------------------------------------------------------------------------------------------ C17
+def c17(ctx):
+    """the response functions of the real implementation on a lattice, all 37 catalogue crops"""
+    from aquacrop.solution.water_stress import water_stress
+    from aquacrop.solution.temperature_stress import temperature_stress
+    from aquacrop.solution.growing_degree_day import growing_degree_day
+    from aquacrop.solution.cc_development import cc_development
+    from aquacrop.solution.cc_required_time import cc_required_time
+    from aquacrop.entities.crop import Crop
+    import types
+    tier = ctx["tier"]
+    viols, evals, nontriv = [], 0, 0
+    eps = 1e-12
+    nd = 15 if tier == "quick" else 57
+    dgrid = np.linspace(-0.2, 1.2, nd)
+    et0s = [0.1, 2.0, 5.0, 9.0, 20.0] if tier == "quick" else np.linspace(0.1, 20, 12)
+    temps = np.linspace(-30, 60, 19 if tier == "quick" else 91)
+    pseudo = dict(id="lattice")
+    for cname in S.CROPS:
+        c = Crop(cname, planting_date="05/01")
+        p_up = np.array([c.p_up1, c.p_up2, c.p_up3, c.p_up4], dtype=float)
+        p_lo = np.array([c.p_lo1, c.p_lo2, c.p_lo3, c.p_lo4], dtype=float)
+        fsh = np.array([c.fshape_w1, c.fshape_w2, c.fshape_w3, c.fshape_w4], dtype=float)
+        taw = 150.0
+        for et0 in et0s:
+            for tes in (0.0, 3.0):
+                prev = None
+                for d in dgrid:
+                    ks = np.array(water_stress(p_up, p_lo, c.ETadj, c.beta, fsh, tes, d * taw, taw, float(et0), True), dtype=float)
+                    evals += 1
+                    if np.any(ks < -eps) or np.any(ks > 1 + eps) or not np.all(np.isfinite(ks)):
+                        viols.append(V("C17", "ks-range", pseudo, "water-stress coefficient outside [0,1]", crop=cname, et0=float(et0), drel=float(d), ks=ks.tolist()))
+                    if prev is not None and np.any(ks > prev + 1e-9):
+                        viols.append(V("C17", "ks-monotone", pseudo, "water-stress coefficient increases with depletion", crop=cname, et0=float(et0), drel=float(d), ks=ks.tolist(), prev=prev.tolist()))
+                    prev = ks
+                nontriv += 1
+        prevH = prevC = None
+        for T in temps:
+            kh, _ = temperature_stress(c, float(T), 10.0)
+            _, kc = temperature_stress(c, 30.0, float(T))
+            evals += 2
+            for nm, k in (("polH", kh), ("polC", kc)):
+                if not (-eps <= k <= 1 + eps):
+                    viols.append(V("C17", f"{nm}-range", pseudo, "pollination coefficient outside [0,1]", crop=cname, T=float(T), k=float(k)))
+            if prevH is not None and kh > prevH + 1e-12:
+                viols.append(V("C17", "polH-monotone", pseudo, "heat coefficient increases with temperature", crop=cname, T=float(T)))
+            if prevC is not None and kc < prevC - 1e-12:
+                viols.append(V("C17", "polC-monotone", pseudo, "cold coefficient decreases with rising temperature", crop=cname, T=float(T)))
+            prevH, prevC = kh, kc
+        for m in (1, 2, 3):
+            for tmin in temps[::3]:
+                prev = None
+                for tmax in temps:
+                    if tmax < tmin:
+                        continue
+                    g = growing_degree_day(m, c.Tupp, c.Tbase, float(tmax), float(tmin))
+                    evals += 1
+                    if g < -eps or g > c.Tupp - c.Tbase + eps:
+                        viols.append(V("C17", "gdd-range", pseudo, "degree days outside [0, Tupp-Tbase]", crop=cname, method=m, tmax=float(tmax), tmin=float(tmin), gdd=float(g)))
+                    if prev is not None and g < prev - 1e-12:
+                        viols.append(V("C17", "gdd-monotone", pseudo, "degree days decrease when temperature rises", crop=cname, method=m, tmax=float(tmax), tmin=float(tmin)))
+                    prev = g
+        # canopy curves
+        cc0 = float(c.SeedSize * c.PlantPop * 1e-8) if getattr(c, "CC0", 0) in (0, 0.0) else float(c.CC0)
+        cgc = float(c.CGC_CD if c.CalendarType == 1 else c.CGC)
+        cdc = float(c.CDC_CD if c.CalendarType == 1 else c.CDC)
+        tmax_ = 200.0 if c.CalendarType == 1 else 2500.0
+        ts = np.linspace(0, tmax_, 41 if tier == "quick" else 201)
+        prev = None
+        for t in ts:
+            v = cc_development(cc0, c.CCx, cgc, cdc, float(t), "Growth", c.CCx)
+            evals += 1
+            if v < -eps or v > c.CCx + 1e-12:
+                viols.append(V("C17", "cc-growth-range", pseudo, "growth curve outside [0, CCx]", crop=cname, t=float(t), cc=float(v)))
+            if prev is not None and v < prev - 1e-12:
+                viols.append(V("C17", "cc-growth-monotone", pseudo, "growth curve decreases", crop=cname, t=float(t)))
+            if cc0 < v < c.CCx * (1 - 1e-9) and cgc > 0:
+                tr = cc_required_time(float(v), cc0, c.CCx, cgc, cdc, "CGC")
+                if abs(tr - t) > 1e-6 * max(1.0, t):
+                    viols.append(V("C17", "required-time-inverse", pseudo, "time-to-reach-cover does not invert the growth curve", crop=cname, t=float(t), treq=float(tr)))
+            prev = v
+        prev = None
+        for t in ts:
+            v = cc_development(cc0, c.CCx, cgc, cdc, float(t), "Decline", c.CCx)
+            evals += 1
+            if v < -eps or v > c.CCx + 1e-12:
+                viols.append(V("C17", "cc-decline-range", pseudo, "decline curve outside [0, CCx]", crop=cname, t=float(t), cc=float(v)))
+            if prev is not None and v > prev + 1e-12:
+                viols.append(V("C17", "cc-decline-monotone", pseudo, "decline curve increases", crop=cname, t=float(t)))
+            prev = v
+        nontriv += 1
+    # CO2 factor on really initialised models (default reference), lattice of concentrations
+    from .lines import fco2_init as FI
+    concs = [250, 300, 369.41, 400, 450, 550, 551, 700, 1000, 1999, 2000, 2500]
+    for cname in (S.CROPS if tier != "quick" else S.CROPS[::4]):
+        c = Crop(cname, planting_date="05/01")
+        prev = None
+        for conc in concs:
+            try:
+                f = FI.FUNC(float(conc), 369.41, c)
+            except Exception:  # noqa: BLE001
+                f = None
+            if f is None:
+                break
+            evals += 1
+            if abs(conc - 369.41) < 1e-12 and abs(f - 1.0) > 1e-12:
+                viols.append(V("C17", "fco2-at-ref", pseudo, "CO2 factor is not 1 at the reference concentration", crop=cname, f=float(f)))
+            if prev is not None and f < prev - 1e-12:
+                viols.append(V("C17", "fco2-monotone", pseudo, "CO2 factor decreases with concentration", crop=cname, conc=conc, f=float(f), prev=float(prev)))
+            prev = f
+    return viols, dict(evaluations=evals, distinct_nontrivial=nontriv, c17_crops=len(S.CROPS),
+                       c17_samples=[dict(lattice="depletion -20..120 % TAW x ET0 0.1..20; T -30..60; time; CO2 250..2500", crops=len(S.CROPS))])
+
+
+# ------------------------------------------------------------------------------------------ C18
+def c18_model_checks(sc, model, viols):
+    prof = model._param_struct.Soil.Profile
+    P = {f: np.array(getattr(prof, f), dtype=float) for f in
+         ("dz", "dzsum", "zBot", "z_top", "zMid", "th_dry", "th_wp", "th_fc", "th_s", "tau", "Ksat")}
+    lay = np.array(prof.Layer)
+    n = len(P["dz"])
+    tol = 1e-9
+    if not np.allclose(P["dzsum"], np.round(np.cumsum(P["dz"]), 2), atol=1e-9):
+        viols.append(V("C18", "dzsum-not-running-sum", sc, "compartment bottoms are not the running sum of thicknesses"))
+    mid = P["dzsum"] - P["dz"] / 2
+    if not (np.allclose(P["zBot"], P["dzsum"], atol=tol) and np.allclose(P["z_top"], P["dzsum"] - P["dz"], atol=tol)
+            and np.allclose(P["zMid"], mid, atol=tol)):
+        viols.append(V("C18", "mid-stale-after-deepen", sc, "tops / mid-depths are not consistent with the compartment bottoms (not recomputed after deepening)",
+                       zMid_last=float(P["zMid"][-1]), expected=float(mid[-1]), zBot_last=float(P["zBot"][-1]), dzsum_last=float(P["dzsum"][-1])))
+    if lay[0] != 1 or np.any(np.diff(lay) < 0) or np.any(np.diff(lay) > 1):
+        viols.append(V("C18", "layers-not-contiguous", sc, "layers are not contiguous from the surface", layers=lay.tolist()))
+    if not (np.all(P["th_dry"] < P["th_wp"]) and np.all(P["th_wp"] < P["th_fc"]) and np.all(P["th_fc"] <= P["th_s"])):
+        viols.append(V("C18", "hydraulic-order", sc, "air-dry < wilting point < field capacity <= saturation violated"))
+    if np.any(P["tau"] < 0) or np.any(P["tau"] > 1):
+        viols.append(V("C18", "tau-range", sc, "drainage coefficient outside [0,1]"))
+    zmax = float(model.crop.Zmax)
+    if P["dzsum"][-1] < zmax + 0.1 - 1e-9:
+        viols.append(V("C18", "profile-too-shallow", sc, "profile does not end below the maximum rooting depth", zsoil=float(P["dzsum"][-1]), zmax=zmax))
+    # per-layer constancy of hydraulic properties
+    for l in np.unique(lay):
+        idx = lay == l
+        for f in ("th_wp", "th_fc", "th_s", "Ksat", "tau", "th_dry"):
+            if np.ptp(P[f][idx]) != 0:
+                viols.append(V("C18", "layer-props-not-constant", sc, "compartments of one layer differ in a hydraulic property", layer=int(l), field=f))
+                break
+    # initial water content as requested (Layer method, no water table)
+    iw = sc.get("iwc") or {"wc_type": "Prop", "method": "Layer", "depth_layer": [1], "value": ["FC"]}
+    th0 = np.array(model._init_cond.th, dtype=float)
+    if model._param_struct.water_table == 0:
+        if iw["method"] == "Layer":
+            for l, v in zip(iw["depth_layer"], iw["value"]):
+                idx = lay == int(l)
+                if not idx.any():
+                    continue
+                if iw["wc_type"] == "Prop":
+                    want = {"SAT": P["th_s"], "FC": P["th_fc"], "WP": P["th_wp"]}[v][idx]
+                elif iw["wc_type"] == "Pct":
+                    want = P["th_wp"][idx] + (float(v) / 100.0) * (P["th_fc"][idx] - P["th_wp"][idx])
+                else:
+                    want = np.full(idx.sum(), float(v))
+                if not np.allclose(th0[idx], want, rtol=0, atol=1e-12):
+                    viols.append(V("C18", "iwc-layer", sc, "initial water content of a layer differs from the request", layer=int(l), request=str(v),
+                                   got=float(th0[idx][0]), want=float(np.atleast_1d(want)[0])))
+        else:
+            depths = np.array(iw["depth_layer"], dtype=float)
+            if iw["wc_type"] == "Num":
+                vals = np.array(iw["value"], dtype=float)
+            else:
+                vals = []
+                for dpt, v in zip(depths, iw["value"]):
+                    j = int(np.argmax(P["dzsum"] > dpt)) if (P["dzsum"] > dpt).any() else n - 1
+                    if iw["wc_type"] == "Prop":
+                        vals.append({"SAT": P["th_s"], "FC": P["th_fc"], "WP": P["th_wp"]}[v][j])
+                    else:
+                        vals.append(P["th_wp"][j] + (float(v) / 100.0) * (P["th_fc"][j] - P["th_wp"][j]))
+                vals = np.array(vals, dtype=float)
+            if depths[0] > 0:
+                depths = np.append([0], depths); vals = np.append([vals[0]], vals)
+            if depths[-1] < P["dzsum"][-1]:
+                depths = np.append(depths, [P["dzsum"][-1]]); vals = np.append(vals, [vals[-1]])
+            want = np.interp(mid, depths, vals)
+            if not np.allclose(th0, want, rtol=0, atol=1e-9):
+                i = int(np.argmax(np.abs(th0 - want)))
+                viols.append(V("C18", "iwc-depth-interp", sc, "initial water content is not the interpolation of the depth points at compartment mid-depths",
+                               comp=i, got=float(th0[i]), want=float(want[i])))
+
+
+def c18(ctx):
+    seed, tier = ctx["seed"], ctx["tier"]
+    from .lines import soil_build_gen as G
+    rng = np.random.default_rng(seed + 18)
+    n = 60 if tier == "quick" else 600
+    viols, evals, nontriv = [], 0, 0
+    scs = valid_scens(seed + 18, n // 2)
+    # all built-in soils x a deep-rooted and a shallow crop
+    for i, soil in enumerate(S.BUILTIN_SOILS):
+        for crop in ("Maize", "Tomato"):
+            scs.append(dict(id=f"c18-{soil}-{crop}", start="1982/05/01", end="1982/12/31",
+                            weather={"kind": "file", "name": "champion_climate.txt"}, soil={"type": soil},
+                            crop={"name": crop, "planting": "05/01", "overrides": {}},
+                            iwc=S.random_iwc(rng, 2 if soil in ("Paddy", "ac_TunisLocal") else 1)))
+    for sc in scs:
+        try:
+            model = S.build_model(sc)
+            model._initialize()
+        except Exception:  # noqa: BLE001
+            continue
+        evals += 1
+        deep = float(np.sum(model._param_struct.Soil.Profile.dz)) > float(np.sum(np.array(sc["soil"].get("dz") or [0.1] * 12))) + 1e-9
+        nontriv += 1
+        c18_model_checks(sc, model, viols)
+    return viols, dict(evaluations=evals, distinct_nontrivial=nontriv,
+                       c18_samples=[dict(scen=s["id"], soil=s["soil"], crop=s["crop"]["name"]) for s in scs[:2]])
